@@ -59,9 +59,10 @@ def _arr(v, shape, what, key, case):
     return a.reshape(shape)
 
 
-def _cmp(got, ref, what, key, case, rtol=1e-9):
+def _cmp(got, ref, what, key, case, rtol=1e-9, terms=0.0):
+    """terms: size of the terms summed into one reference entry (its own rounding noise is about 1e-16 of that)."""
     scale = np.maximum(np.abs(ref), np.abs(got))
-    bad = np.abs(got - ref) > rtol * scale + 1e-12 * (1 + (float(np.abs(ref).max()) if np.size(ref) else 0.0))
+    bad = np.abs(got - ref) > rtol * scale + 1e-12 * (1 + (float(np.abs(ref).max()) if np.size(ref) else 0.0)) + 1e-13 * terms
     if bad.any() or not np.isfinite(got).all():
         i = np.argwhere(bad | ~np.isfinite(got))[0]
         raise PropertyViolation(key, "%s differs at %s: model %.15g, reference %.15g" % (
@@ -145,15 +146,18 @@ def oracle(case, rec):
             raise
         except Exception as e:
             raise PropertyViolation("C01/evaluate/" + type(e).__name__, "numeric evaluation raised %r" % (e,), case)
-        _cmp(got_f, ref["f"], "ode(x,t)", "C01/ode", case)
+        tf = float(np.abs(ref["pure"]).max()) if n_s else 0.0
+        if n_e:
+            tf += float(np.abs(ref["V"]).dot(np.abs(ref["rates"])).max())
+        _cmp(got_f, ref["f"], "ode(x,t)", "C01/ode", case, terms=tf)
         _cmp(got_p, ref["pure"], "pureOdeVector(x,t)", "C01/pureOdeVector", case)
         if n_e:
             _cmp(got_V, ref["V"], "vMat(x,t)", "C01/vMat", case)
             _cmp(got_a, ref["rates"], "eventRateVector(x,t)", "C01/eventRateVector", case)
-            _cmp(got_V.dot(got_a) + got_p, got_f, "vMat*rates+pure vs ode (numeric identity)", "C01/identity-numeric", case, rtol=1e-8)
+            _cmp(got_V.dot(got_a) + got_p, got_f, "vMat*rates+pure vs ode (numeric identity)", "C01/identity-numeric", case, rtol=1e-8, terms=tf)
         # (b) symbolic reports substituted at 30 digits
         _cmp(_sym_eval(ode_sym, m, pt, "get_ode_eqn()", "C01/get_ode_eqn", case).reshape(n_s), ref["f"],
-             "get_ode_eqn()", "C01/get_ode_eqn", case)
+             "get_ode_eqn()", "C01/get_ode_eqn", case, terms=tf)
         _cmp(_sym_eval(pure_sym, m, pt, "get_pureOdeVector()", "C01/get_pureOdeVector", case).reshape(n_s), ref["pure"],
              "get_pureOdeVector()", "C01/get_pureOdeVector", case)
         if n_e:
